@@ -85,6 +85,52 @@ def denver_graph():
     return nx.node_link_graph(json.loads(json.dumps(denver_graph_data())), edges="links")
 
 
+def reference_graph(spec):
+    """the harness's OWN copy of the graph the library is given, with travel times computed here (seconds =
+    length_m / 1000 / speed_kmph * 3600 unless the input already carries 'travel_time'); the library never sees this object"""
+    kind = spec[0]
+    if kind == "grid":
+        speeds = spec[1] if len(spec) > 1 else (40,) * 7
+        factors = spec[2] if len(spec) > 2 else (1,) * 7
+        oneway = spec[3] if len(spec) > 3 else ()
+        g = grid_graph(speeds, factors, oneway)
+    elif kind == "ring":
+        g = ring_graph()
+    elif kind == "deadend":
+        g = deadend_graph()
+    elif kind == "denver":
+        g = denver_graph()
+    elif kind == "parallel":
+        g = parallel_graph()
+    else:
+        raise ValueError(spec)
+    for u, v, d in g.edges(data=True):
+        if "travel_time" not in d:
+            d["travel_time"] = d["length"] / 1000.0 / float(d.get("speed_kmph", 40.0)) * 3600.0
+    return g
+
+
+def parallel_graph():
+    """a block with PARALLEL streets between the same junctions (a fast arterial as edge key 0, a slow service road as
+    key 1, and the other way round) plus detours whose cost lies between the two"""
+    nodes = {0: (0.0, 0.0), 1: (0.6, 0.0), 2: (0.6, 0.5), 3: (0.0, 0.5)}
+    g = _graph(nodes, [])
+    def add(u, v, sp, lf):
+        a, b = g.nodes[u], g.nodes[v]
+        g.add_edge(u, v, length=hav_m(a["y"], a["x"], b["y"], b["x"]) * lf, speed_kmph=float(sp))
+    for u, v in ((0, 1), (1, 0)):
+        add(u, v, 100, 1.0)   # key 0: arterial
+        add(u, v, 10, 1.3)    # key 1: service road
+    for u, v in ((2, 3), (3, 2)):
+        add(u, v, 10, 1.3)    # key 0: service road
+        add(u, v, 100, 1.0)   # key 1: arterial
+    for u, v in ((1, 2), (2, 1), (3, 0), (0, 3)):
+        add(u, v, 40, 1.0)
+    add(0, 2, 40, 1.0)
+    add(2, 0, 40, 1.0)
+    return g
+
+
 def build(spec) -> object:
     """spec: ("haversine",) | ("grid", speeds, factors, oneway) | ("ring",) | ("deadend",) | ("denver",)"""
     kind = spec[0]
@@ -101,6 +147,8 @@ def build(spec) -> object:
         return OSMRoadNetwork(deadend_graph(), sim_h3_resolution=15)
     if kind == "denver":
         return OSMRoadNetwork(denver_graph(), sim_h3_resolution=15)
+    if kind == "parallel":
+        return OSMRoadNetwork(parallel_graph(), sim_h3_resolution=15)
     raise ValueError(spec)
 
 
